@@ -19,7 +19,7 @@
 
 use futures::future::FusedFuture;
 use futures::stream::{FusedStream, FuturesUnordered, Stream};
-use futures::{pin_mut, select};
+use futures::{pin_mut, select_biased};
 use nix;
 use nix::errno::Errno;
 use nix::sys::signal::{self, SigHandler, Signal};
@@ -949,11 +949,13 @@ where
 
     let mut next_bg = bg_stream.next();
     loop {
-        select! {
-            x = fg_future => return x,
+        // Always handle finished jobs (recording their result and releasing
+        // their lock) before reporting that the foreground future is done.
+        select_biased! {
             _ = next_bg => {
                 next_bg = bg_stream.next();
             }
+            x = fg_future => return x,
         }
     }
 }
